@@ -131,6 +131,12 @@ type TunPlan struct {
 	// second request of a legacy pair until they return true (late joiners, slow clients)
 	StartGate  func() bool
 	SecondGate func() bool
+	// PreambleDelay (legacy): the client lets that much time pass between the acceptance of its
+	// RDG_IN_DATA request and the first byte it sends on it
+	PreambleDelay time.Duration
+	// LostOut (legacy): the client's first RDG_OUT_DATA connection is lost right after it was
+	// accepted (before any RDG_IN_DATA); the client retries with the same connection id
+	LostOut bool
 	// QuietBefore[i]: the client is quiet for that long (simulated time passes on the open
 	// tunnel) before it sends transport message i (segment i with Segs, else packet i)
 	QuietBefore map[int]time.Duration
@@ -150,7 +156,11 @@ type Tun struct {
 	// Dup is the client that made the second IN request (TunPlan.DupIn)
 	Dup      *env.TunClient
 	dupStage int
-	quiet    map[int]bool
+	// lost is the client's first, lost RDG_OUT_DATA attempt (TunPlan.LostOut)
+	lost       *env.TunClient
+	lostStage  int
+	preDelayed bool
+	quiet      map[int]bool
 }
 
 func (t *Tun) SentAll() bool {
@@ -362,6 +372,9 @@ func (t *Tun) setupEnabled() bool {
 	}
 	switch t.step {
 	case 0:
+		if p.LostOut && t.lostStage == 1 {
+			return t.lost.Status("out") == 200 || t.lost.Failed != ""
+		}
 		return true
 	case 1:
 		if p.SecondGate != nil && !p.SecondGate() {
@@ -386,6 +399,22 @@ func (t *Tun) setupStep(c *Ctx) {
 	} else {
 		switch t.step {
 		case 0:
+			if p.LostOut && !p.INFirst && t.lostStage < 2 {
+				if t.lostStage == 0 {
+					t.lost = c.W.NewTunClient(p.Name+"-lost", "legacy", p.From, p.ConnID)
+					t.lost.XFF = p.XFF
+					t.lost.NTLMUser, t.lost.NTLMPass = p.NTLMUser, p.NTLMPass
+					if e := t.lost.OpenOut(); e != nil {
+						t.Err = e.Error()
+					}
+					t.lostStage = 1
+					return
+				}
+				t.lost.CloseAll(p.CloseReset)
+				t.lostStage = 2
+				c.S.Count("fault.conn.out_channel_lost_before_in")
+				return
+			}
 			if p.INFirst {
 				err = cl.OpenIn(p.InFrom)
 				c.S.Count("fault.order.inout")
@@ -401,6 +430,12 @@ func (t *Tun) setupStep(c *Ctx) {
 			}
 			t.step = 2
 		case 2:
+			if p.PreambleDelay > 0 && !t.preDelayed && c.S.PendingDials() == 0 {
+				t.preDelayed = true
+				c.S.Advance(p.PreambleDelay)
+				c.S.Count("fault.client.slow_to_send_first_byte")
+				return
+			}
 			cl.SendPreamble()
 			t.step = 3
 		}
